@@ -163,28 +163,21 @@ func storedSummary(m *model.Collection, q models.Query) string {
 
 func execCase(c Case) (res vt.Result) {
 	rec := vt.R()
-	if r := c.H.Rename; len(r) > 0 {
+	if len(c.H.Rename) > 0 {
 		rec.Count("histories_with_renamed_properties", 1)
-		queries := make([][]models.Query, len(c.Queries))
-		for i, qs := range c.Queries {
-			for _, q := range qs {
-				queries[i] = append(queries[i], r.Query(q))
-			}
-		}
-		c.Queries = queries
-		c.H = c.H.Renamed()
 	}
 	h := c.H
 	dir, cleanup := drive.CaseDir()
 	defer cleanup()
 	path := filepath.Join(dir, "sharddb.bbolt")
 	mgr := drive.Manager(h.CacheLimit)
-	s, err := drive.Open(path, h.Schema, h.MaxPointSize, mgr)
+	s, err := drive.OpenNamed(path, h.Schema, h.MaxPointSize, mgr, h.Rename)
 	if err != nil {
 		return vt.Result{Err: fmt.Errorf("open: %v", err)}
 	}
 	defer func() { s.Close() }()
 	m := model.NewCollection(h.Schema, h.MaxPointSize)
+	m.SizeNames = h.Rename
 	touched := map[string]bool{}
 	markTouched := func(ids []uuid.UUID, before *model.Collection) {
 		for _, id := range ids {
@@ -236,7 +229,7 @@ func execCase(c Case) (res vt.Result) {
 			if err := s.Close(); err != nil {
 				return fail(i, "close: %v", err)
 			}
-			if s, err = drive.Open(path, h.Schema, h.MaxPointSize, mgr); err != nil {
+			if s, err = drive.OpenNamed(path, h.Schema, h.MaxPointSize, mgr, h.Rename); err != nil {
 				return fail(i, "reopen: %v", err)
 			}
 		case "evict":
@@ -257,7 +250,7 @@ func execCase(c Case) (res vt.Result) {
 			if err := drive.CopyFile(path, cp); err != nil {
 				return fail(i, "copy: %v", err)
 			}
-			cold, err := drive.Open(cp, h.Schema, h.MaxPointSize, cache.NewManager(-1))
+			cold, err := drive.OpenNamed(cp, h.Schema, h.MaxPointSize, cache.NewManager(-1), h.Rename)
 			if err != nil {
 				return fail(i, "open cold copy: %v", err)
 			}
